@@ -21,7 +21,8 @@ impl<M> BoxedFn<(ForceTag, M)> {
 }
 // the upgrade closure (contract = lifted bodies Sender__new__closure2 / WeakSender__from_weak_tx__closure0)
 pub open spec fn upgraded_sender<M: Message<Response = ()>>(f_cap0: int, f_cap1: int, r: &Option<Sender<M>>) -> bool {
-    *r is Some ==> r->0.wf() && r->0.chan() == f_cap0 && r->0.id.0 as int == f_cap1
+    &&& (*r is Some ==> r->0.wf() && r->0.chan() == f_cap0 && r->0.id.0 as int == f_cap1)
+    &&& (*r is Some) == both_alive(f_cap0)
 }
 impl<M: Message<Response = ()>> BoxedFn<(UpTag, M)> {
     #[verifier::external_body]
